@@ -12,7 +12,10 @@ cleanup() { git -C /repo worktree remove --force $WT 2>/dev/null; rm -rf $WT; }
 trap cleanup EXIT
 cd $WT
 rundemo() {
-  if [ -f $SRC/demo/main.go ]; then
+  if [ -f $SRC/demo.sh ]; then
+    go build -o $WT/zz_goalign_bin . >/tmp/sv-$NAME.bb 2>&1 || return 99
+    bash $SRC/demo.sh $WT/zz_goalign_bin >/tmp/sv-$NAME.out 2>&1; rc=$?; rm -f $WT/zz_goalign_bin; return $rc
+  elif [ -f $SRC/demo/main.go ]; then
     mkdir -p $WT/zz_demo && cp $SRC/demo/*.go $WT/zz_demo/ && go run ./zz_demo >/tmp/sv-$NAME.out 2>&1; rc=$?; rm -rf $WT/zz_demo; return $rc
   else
     pkg=$(grep -m1 '^package ' $SRC/demo_test.go | awk '{print $2}')
@@ -20,6 +23,9 @@ rundemo() {
       align|align_test) d=align;; partition) d=io/partition;; dna) d=$(grep -q 'distance' $SRC/README.md && echo distance/dna || echo models/dna);;
       *) d=$(grep -rl "^package $pkg\$" --include=*.go . | head -1 | xargs dirname);;
     esac
+    # the README says where the test file goes ("copy ... into `io/phylip/`")
+    hint=$(grep -o 'into `[A-Za-z0-9_/.]*`' $SRC/README.md 2>/dev/null | head -1 | sed 's/into `//; s/`//; s#/$##; s#^\./##')
+    [ -n "$hint" ] && [ -d "$WT/$hint" ] && d=$hint
     [ -n "${DEMO_DIR:-}" ] && d=$DEMO_DIR
     cp $SRC/demo_test.go $WT/$d/zz_demo_test.go
     tests=$(grep -o '^func Test[A-Za-z0-9_]*' $SRC/demo_test.go | sed 's/func //' | paste -sd'|')
